@@ -389,6 +389,29 @@ def kernel_def(relpath, qualname, lean_name, params, arrays=(), tuples=None, ret
     return f"{d}def {lean_name} {' '.join(sig)} : {ret_type} :=\n{body}\n"
 
 
+def inlined_return(fn):
+    """function whose body is `name = expr` statements followed by one `return expr`: the return expression with the
+    locals substituted (each local assigned once)"""
+    body = stmts_of(fn)
+    if not body or not isinstance(body[-1], ast.Return) or body[-1].value is None:
+        raise Untranslatable(f"{fn.name}: no final return")
+    local = {}
+    for st in body[:-1]:
+        if not (isinstance(st, ast.Assign) and len(st.targets) == 1 and isinstance(st.targets[0], ast.Name)
+                and st.targets[0].id not in local):
+            raise Untranslatable(f"{fn.name}: statement {ast.unparse(st)[:50]}")
+
+        class Sub(ast.NodeTransformer):
+            def visit_Name(self, n):
+                return _copy(local[n.id]) if n.id in local else n
+        local[st.targets[0].id] = Sub().visit(_copy(st.value))
+
+    class Sub2(ast.NodeTransformer):
+        def visit_Name(self, n):
+            return _copy(local[n.id]) if n.id in local else n
+    return Sub2().visit(_copy(body[-1].value))
+
+
 # ----------------------------------------------------------------------------------------------------------------
 # the per-peak body of `evaluate_correlations`
 # ----------------------------------------------------------------------------------------------------------------
@@ -398,9 +421,9 @@ def _shift_component(relpath, comp, anchor, crop, typ):
     arguments replaced by one component each and `np.array((crop_size, crop_size))` by `crop_size`"""
     fn = find_def(relpath, "_shift")
     args = [a.arg for a in fn.args.args]
-    ret = [s for s in stmts_of(fn) if isinstance(s, ast.Return)]
-    if len(args) != 3 or len(ret) != 1 or len(stmts_of(fn)) != 1:
-        raise Untranslatable("_shift is not a single return of three arguments")
+    if len(args) != 3:
+        raise Untranslatable("_shift does not take three arguments")
+    ret_expr = inlined_return(fn)
 
     class Sub(ast.NodeTransformer):
         def visit_Call(self, node):
@@ -409,7 +432,7 @@ def _shift_component(relpath, comp, anchor, crop, typ):
                 return ast.Name(id=args[2], ctx=ast.Load())
             self.generic_visit(node)
             return node
-    expr = Sub().visit(_copy(ret[0].value))
+    expr = Sub().visit(_copy(ret_expr))
     env = Env(vars={args[0]: (comp, typ), args[1]: (anchor, INT), args[2]: (crop, INT)})
     return tr(expr, env)
 
